@@ -71,6 +71,8 @@ type g2lUnit struct {
 	worldCalls map[string]string // source text of a call's function expression -> Lean function `args… → W → (result × W)` (an external call that reads / changes the world)
 	foreignTypes map[string]string // "zip.Reader" -> Lean structure name (declared in the imports / preamble) for a struct type of another package
 	limitedReaders bool          // io.LimitedReader{R, N} values are `LimitedReader` structures; io.Copy(w, lr) reads through `limRead`
+	walkCalls map[string]string  // "filepath.Walk" -> abstract parameter `Bytes → FsTree FileInfo` (what the file system holds at the root): Walk(root, func…) becomes `walkTree` over that tree with the hoisted closure
+	lambdaClosures bool          // `f := func(x) T { return <pure expr> }` becomes a Lean function VALUE (it can be passed on), not a hoisted definition
 	structTV  map[string]bool   // computed: struct is parametric in the abstract type variables
 }
 
@@ -775,6 +777,14 @@ func (f *g2lFn) expr(b *binds, e ast.Expr) string {
 				t = fl.Type()
 			}
 			return path
+		}
+		// an error sentinel of another package (filepath.SkipDir)
+		if id, ok := e.X.(*ast.Ident); ok {
+			if _, ok := f.p.info.Uses[id].(*types.PkgName); ok {
+				if v, ok := f.p.info.Uses[e.Sel].(*types.Var); ok && isErrorType(v.Type()) {
+					return fmt.Sprintf("(some %q)", e.Sel.Name)
+				}
+			}
 		}
 		// a package function used as a value (strings.IndexFunc(name, unicode.IsSpace))
 		if id, ok := e.X.(*ast.Ident); ok {
